@@ -205,13 +205,15 @@ End Generic.
 (* The statement proved of every reader: [want] is the operator's meaning
    applied to the rows of the script(s); [failing] says that an input which
    has to be read fails. *)
-Definition delivers (r : list (list row * status)) (ds : list nat) (want : list row) (failing : bool) : Prop :=
+Definition delivers_gen (r : list (list row * status)) (ds : list nat) (want : list row)
+           (failing mayfail : bool) : Prop :=
   calls_bounded r ds /\
   prefix (outs_of r) want /\
   (final_of r = SEof -> outs_of r = want) /\
   (failing = true -> final_of r <> SEof) /\
-  (failing = false -> forall e, final_of r <> SErr e) /\
+  (mayfail = false -> forall e, final_of r <> SErr e) /\
   no_fuel r.
+Definition delivers r ds want failing : Prop := delivers_gen r ds want failing failing.
 
 Lemma delivers_chunking r1 ds1 r2 ds2 want f1 f2 :
   delivers r1 ds1 want f1 -> delivers r2 ds2 want f2 ->
@@ -238,4 +240,22 @@ Lemma delivers_agree r1 ds1 r2 ds2 want f1 f2 :
   length (outs_of r1) <= length (outs_of r2) -> prefix (outs_of r1) (outs_of r2).
 Proof.
   intros (_ & P1 & _) (_ & P2 & _) Hl. eapply prefix_common; eauto.
+Qed.
+
+(* how much a read takes out of a script *)
+Lemma up_read_meas s d o st s' :
+  1 <= d -> up_read s d = (o, st, s') -> (st = SOk \/ st = SEof) ->
+  smeas s' + length o <= smeas s /\ (st = SOk -> o = [] -> smeas s' < smeas s).
+Proof.
+  intros Hd H Hst. destruct s as [|[l|l|e] r]; simpl in H.
+  - inversion H; subst; simpl. split; [lia|intros; discriminate].
+  - destruct (Nat.leb_spec (length l) d) as [Hl|Hl]; inversion H; subst; simpl.
+    + split; intros; lia.
+    + rewrite firstn_length, skipn_length. split; [lia|].
+      intros _ Hn. apply (f_equal (@length _)) in Hn. rewrite firstn_length in Hn. simpl in Hn. lia.
+  - destruct (Nat.leb_spec (length l) d) as [Hl|Hl]; inversion H; subst; simpl.
+    + split; [lia|intros; discriminate].
+    + rewrite firstn_length, skipn_length. split; [lia|].
+      intros _ Hn. apply (f_equal (@length _)) in Hn. rewrite firstn_length in Hn. simpl in Hn. lia.
+  - inversion H; subst. destruct Hst; discriminate.
 Qed.
